@@ -34,6 +34,14 @@ func effW(w int) int {
 // genLen draws a payload length biased to boundaries; w is the effective
 // write buffer size of the sender (0 if not applicable).
 func genLen(r *PRNG, w int, big bool) int {
+	n := genLen0(r, w, big)
+	if n < 0 {
+		n = 0
+	}
+	return n
+}
+
+func genLen0(r *PRNG, w int, big bool) int {
 	switch r.Intn(12) {
 	case 0:
 		return 0
